@@ -59,16 +59,35 @@ type solver struct {
 	seq     int
 	dead    bool
 	curTO   int
+	kind    string
 	log     io.Writer // optional SMT transcript
 }
 
 func newSolver(ctx *tctx, stats *SolverStats, timeoutMs int) *solver {
-	s := &solver{ctx: ctx, stats: stats, timeout: timeoutMs, cmdline: []string{"z3", "-in"}}
+	s := &solver{ctx: ctx, stats: stats, timeout: timeoutMs, kind: "z3"}
 	s.start()
 	return s
 }
 
+// use switches the primary solver ("z3" or "cvc5"), restarting the process if needed.
+func (s *solver) use(kind string) {
+	if kind == "" {
+		kind = "z3"
+	}
+	if kind == s.kind && !s.dead {
+		return
+	}
+	s.close()
+	s.kind = kind
+	s.start()
+}
+
 func (s *solver) start() {
+	if s.kind == "cvc5" {
+		s.cmdline = []string{"cvc5", "--incremental", "--fp-exp", "--produce-models", "--lang=smt2", "--tlimit-per=" + strconv.Itoa(s.timeout)}
+	} else {
+		s.cmdline = []string{"z3", "-in"}
+	}
 	s.cmd = exec.Command(s.cmdline[0], s.cmdline[1:]...)
 	in, err := s.cmd.StdinPipe()
 	if err != nil {
@@ -109,13 +128,17 @@ func (s *solver) send(str string) {
 func (s *solver) resetSession() {
 	s.emitted = map[*term]bool{}
 	s.ufDone = map[string]bool{}
-	s.send("(reset)\n(set-option :timeout " + strconv.Itoa(s.timeout) + ")\n")
+	if s.kind == "cvc5" {
+		s.send("(reset)\n(set-logic ALL)\n")
+	} else {
+		s.send("(reset)\n(set-option :timeout " + strconv.Itoa(s.timeout) + ")\n")
+	}
 	s.curTO = s.timeout
 }
 
 // setTimeout changes the per-query timeout of the session.
 func (s *solver) setTimeout(ms int) {
-	if ms != s.curTO {
+	if ms != s.curTO && s.kind != "cvc5" {
 		s.send("(set-option :timeout " + strconv.Itoa(ms) + ")\n")
 		s.curTO = ms
 	}
@@ -377,9 +400,12 @@ func oneShot(cmdline []string, ctx *tctx, terms []*term, modelVars []*term, time
 }
 
 // Fallback solver command lines (timeouts in ms are appended by the caller).
-func fallbackCmds(timeoutMs int) [][]string {
-	return [][]string{
-		{"cvc5", "--fp-exp", "--produce-models", "--tlimit=" + strconv.Itoa(timeoutMs), "--lang=smt2"},
-		{"z3-new", "-in", "-t:" + strconv.Itoa(timeoutMs)},
+func fallbackCmds(primary string, timeoutMs int) [][]string {
+	cvc := []string{"cvc5", "--fp-exp", "--produce-models", "--tlimit=" + strconv.Itoa(timeoutMs), "--lang=smt2"}
+	z3n := []string{"z3-new", "-in", "-t:" + strconv.Itoa(timeoutMs)}
+	z3o := []string{"z3", "-in", "-t:" + strconv.Itoa(timeoutMs)}
+	if primary == "cvc5" {
+		return [][]string{z3o, z3n}
 	}
+	return [][]string{cvc, z3n}
 }
